@@ -8,20 +8,203 @@ From CB Require Import Word PStream PEnc PMem GenLeafTypes.
 Ltac Zify.zify_post_hook ::= Z.div_mod_to_equations.
 Local Open Scope Z_scope.
 
+Ltac pos_lit p := lazymatch p with xH => idtac | xO ?q => pos_lit q | xI ?q => pos_lit q end.
+Ltac z_lit c := lazymatch c with Z0 => idtac | Zpos ?p => pos_lit p | Zneg ?p => pos_lit p end.
+Ltac n_lit c := lazymatch c with N0 => idtac | Npos ?p => pos_lit p end.
+Ltac z_lit_c c := let dummy := match c with _ => z_lit c end in constr:(c).
+(* closed arithmetic expressions: literals combined by + - * *)
+Ltac z_closed k :=
+  lazymatch k with
+  | Z.add ?a ?b => z_closed a; z_closed b
+  | Z.sub ?a ?b => z_closed a; z_closed b
+  | Z.mul ?a ?b => z_closed a; z_closed b
+  | _ => z_lit k
+  end.
+Ltac n_closed k :=
+  lazymatch k with
+  | N.add ?a ?b => n_closed a; n_closed b
+  | N.sub ?a ?b => n_closed a; n_closed b
+  | N.mul ?a ?b => n_closed a; n_closed b
+  | _ => n_lit k
+  end.
+(* 2^k for a closed exponent k -> its numeral (an exponent that mentions a variable is left alone) *)
 Ltac pows :=
   repeat match goal with
-  | |- context [Z.pow 2 ?k] => let v := eval vm_compute in (Z.pow 2 k) in change (Z.pow 2 k) with v
-  | |- context [N.pow 2 ?k] => let v := eval vm_compute in (N.pow 2 k) in change (N.pow 2 k) with v
-  | H : context [Z.pow 2 ?k] |- _ => let v := eval vm_compute in (Z.pow 2 k) in change (Z.pow 2 k) with v in H
-  | H : context [N.pow 2 ?k] |- _ => let v := eval vm_compute in (N.pow 2 k) in change (N.pow 2 k) with v in H
+  | |- context [Z.pow 2 ?k] => z_closed k; let v := eval vm_compute in (Z.pow 2 k) in change (Z.pow 2 k) with v
+  | |- context [N.pow 2 ?k] => n_closed k; let v := eval vm_compute in (N.pow 2 k) in change (N.pow 2 k) with v
+  | H : context [Z.pow 2 ?k] |- _ => z_closed k; let v := eval vm_compute in (Z.pow 2 k) in change (Z.pow 2 k) with v in H
+  | H : context [N.pow 2 ?k] |- _ => n_closed k; let v := eval vm_compute in (N.pow 2 k) in change (N.pow 2 k) with v in H
   end.
 Ltac shifts :=
   repeat (rewrite Z.shiftr_div_pow2 by lia); repeat (rewrite Z.shiftl_mul_pow2 by lia).
 
+(* ---- bit operations as arithmetic ---- *)
+Lemma land_ones_lit x k : 0 <= k -> Z.land x (2 ^ k - 1) = x mod 2 ^ k.
+Proof. intros Hk. rewrite <- Z.land_ones by exact Hk. rewrite Z.ones_equiv. reflexivity. Qed.
+
+Lemma land_mask x lo hi : 0 <= lo <= hi -> Z.land x (2 ^ hi - 2 ^ lo) = x mod 2 ^ hi - x mod 2 ^ lo.
+Proof.
+  intros [Hlo Hhi].
+  assert (Hp : 0 < 2 ^ lo) by (apply Z.pow_pos_nonneg; lia).
+  assert (E1 : 2 ^ hi - 2 ^ lo = Z.shiftl (Z.ones (hi - lo)) lo).
+  { rewrite Z.shiftl_mul_pow2, Z.ones_equiv by lia. unfold Z.pred.
+    rewrite Z.mul_add_distr_r, <- Z.pow_add_r by lia. replace (hi - lo + lo) with hi by lia. lia. }
+  assert (E2 : x mod 2 ^ hi - x mod 2 ^ lo = Z.shiftl (Z.shiftr (x mod 2 ^ hi) lo) lo).
+  { rewrite Z.shiftl_mul_pow2, Z.shiftr_div_pow2 by lia.
+    assert (Hm : (x mod 2 ^ hi) mod 2 ^ lo = x mod 2 ^ lo).
+    { replace hi with (lo + (hi - lo)) by lia. rewrite Z.pow_add_r by lia.
+      rewrite Z.rem_mul_r by lia. rewrite Z.mul_comm, Z.mod_add by lia. apply Z.mod_mod. lia. }
+    pose proof (Z.div_mod (x mod 2 ^ hi) (2 ^ lo) ltac:(lia)) as D. rewrite Hm in D. lia. }
+  rewrite E1, E2. apply Z.bits_inj'. intros n Hn.
+  rewrite Z.land_spec. destruct (Z.ltb_spec n lo) as [L|L].
+  - rewrite !Z.shiftl_spec_low by lia. apply andb_false_r.
+  - rewrite !Z.shiftl_spec by lia. rewrite Z.shiftr_spec by lia. replace (n - lo + lo) with n by lia.
+    destruct (Z.ltb_spec n hi) as [H|H].
+    + rewrite Z.ones_spec_low by lia. rewrite Z.mod_pow2_bits_low by lia. apply andb_true_r.
+    + rewrite Z.ones_spec_high by lia. rewrite Z.mod_pow2_bits_high by lia. apply andb_false_r.
+Qed.
+
+Lemma lor_disjoint a b k : 0 <= k -> a mod 2 ^ k = 0 -> 0 <= b < 2 ^ k -> Z.lor a b = a + b.
+Proof.
+  intros Hk Ha Hb.
+  assert (L : Z.land a b = 0).
+  { apply Z.bits_inj'. intros n Hn. rewrite Z.land_spec, Z.bits_0.
+    destruct (Z.ltb_spec n k) as [H|H].
+    - assert (Ea : a = a / 2 ^ k * 2 ^ k).
+      { pose proof (Z.div_mod a (2 ^ k) ltac:(apply Z.pow_nonzero; lia)). lia. }
+      rewrite Ea, Z.mul_pow2_bits_low by lia. reflexivity.
+    - rewrite <- (Z.mod_small b (2 ^ k)) by lia. rewrite Z.mod_pow2_bits_high by lia. apply andb_false_r. }
+  rewrite Z.add_nocarry_lxor by exact L. symmetry. apply Z.lxor_lor. exact L.
+Qed.
+
+(* lor with a value that is either 0 or the single bit 2^k (no conditional: lia knows Z.min) *)
+Lemma lor_bit a b k : 0 <= k -> a = 0 \/ a = 2 ^ k ->
+  Z.lor a b = a + b - Z.min a (2 ^ k * ((b / 2 ^ k) mod 2)).
+Proof.
+  intros Hk [->| ->].
+  - assert (0 <= 2 ^ k * ((b / 2 ^ k) mod 2)).
+    { apply Z.mul_nonneg_nonneg; [apply Z.pow_nonneg; lia|]. apply Z.mod_pos_bound. lia. }
+    rewrite Z.min_l by assumption. rewrite Z.lor_0_l. lia.
+  - assert (Hp : 0 < 2 ^ k) by (apply Z.pow_pos_nonneg; lia).
+    rewrite Z.lor_comm.
+    destruct (Z.testbit b k) eqn:T.
+    + assert (Eb : (b / 2 ^ k) mod 2 = 1).
+      { rewrite <- Z.shiftr_div_pow2 by lia. rewrite <- Z.bit0_mod, Z.shiftr_spec by lia. rewrite Z.add_0_l, T. reflexivity. }
+      rewrite Eb. rewrite Z.mul_1_r, Z.min_id. replace (2 ^ k + b - 2 ^ k) with b by lia.
+      apply Z.bits_inj'. intros n Hn. rewrite Z.lor_spec, Z.pow2_bits_eqb by lia.
+      destruct (Z.eqb_spec k n) as [<-|N]; [rewrite T; reflexivity|apply orb_false_r].
+    + assert (Eb : (b / 2 ^ k) mod 2 = 0).
+      { rewrite <- Z.shiftr_div_pow2 by lia. rewrite <- Z.bit0_mod, Z.shiftr_spec by lia. rewrite Z.add_0_l, T. reflexivity. }
+      rewrite Eb. rewrite Z.mul_0_r, Z.min_r by lia. replace (2 ^ k + b - 0) with (b + 2 ^ k) by lia.
+      assert (L : Z.land b (2 ^ k) = 0).
+      { apply Z.bits_inj'. intros n Hn. rewrite Z.land_spec, Z.bits_0, Z.pow2_bits_eqb by lia.
+        destruct (Z.eqb_spec k n) as [<-|N]; [rewrite T; reflexivity|apply andb_false_r]. }
+      rewrite Z.add_nocarry_lxor by exact L. symmetry. apply Z.lxor_lor. exact L.
+Qed.
+
+(* literal masks: c = 2^hi - 2^lo (a contiguous run of ones) *)
+Definition tzc (c : Z) : Z :=
+  match c with
+  | Zpos p => (fix f (p : positive) : Z := match p with xO q => 1 + f q | _ => 0 end) p
+  | _ => 0
+  end.
+Definition mask_ok (c lo hi : Z) : bool := (0 <=? lo) && (lo <=? hi) && (c =? 2 ^ hi - 2 ^ lo).
+Lemma land_mask_lit x c lo hi : mask_ok c lo hi = true -> Z.land x c = x mod 2 ^ hi - x mod 2 ^ lo.
+Proof.
+  unfold mask_ok. intros H. apply andb_prop in H. destruct H as [H H3]. apply andb_prop in H. destruct H as [H1 H2].
+  apply Z.eqb_eq in H3. subst c. apply land_mask. split; [apply Z.leb_le, H1|apply Z.leb_le, H2].
+Qed.
+Lemma land_mask_lit_l x c lo hi : mask_ok c lo hi = true -> Z.land c x = x mod 2 ^ hi - x mod 2 ^ lo.
+Proof. intros H. rewrite Z.land_comm. apply land_mask_lit, H. Qed.
+
+(* Z.land with a literal contiguous mask -> differences of remainders (x & 0xFF -> x mod 256 - x mod 1) *)
+Ltac land_step :=
+  match goal with
+  | |- context [Z.land ?x ?c] =>
+      z_lit c;
+      let lo := eval vm_compute in (tzc c) in
+      let hi := eval vm_compute in (Z.log2 c + 1) in
+      rewrite (land_mask_lit x c lo hi (eq_refl true))
+  | |- context [Z.land ?c ?x] =>
+      z_lit c;
+      let lo := eval vm_compute in (tzc c) in
+      let hi := eval vm_compute in (Z.log2 c + 1) in
+      rewrite (land_mask_lit_l x c lo hi (eq_refl true))
+  end.
+
+(* syntactic interval of an arithmetic term (a guess: every use is re-proved by lia) *)
+Ltac nbound v :=
+  match goal with
+  | H : (v < ?n)%N |- _ => let r := eval vm_compute in (Z.of_N n - 1) in z_lit r; r
+  | H : (_ <= v < ?n)%N |- _ => let r := eval vm_compute in (Z.of_N n - 1) in z_lit r; r
+  end.
+Ltac ubound t :=
+  lazymatch t with
+  | Z.of_N ?v => nbound v
+  | ?a + ?b => let x := ubound a in let y := ubound b in eval vm_compute in (x + y)
+  | ?a - ?b => let x := ubound a in let y := lbound b in eval vm_compute in (x - y)
+  | ?a * ?b => let x := ubound a in let y := ubound b in let x' := lbound a in let y' := lbound b in
+               eval vm_compute in (Z.max (Z.max (x * y) (x' * y')) (Z.max (x * y') (x' * y)))
+  | ?a / ?c => let x := ubound a in let d := lbound c in
+               lazymatch eval vm_compute in (0 <? d) with true => eval vm_compute in (Z.max (x / d) 0) end
+  | ?a mod ?c => let d := ubound c in eval vm_compute in (d - 1)
+  | Z.min ?a ?b => let x := ubound a in let y := ubound b in eval vm_compute in (Z.min x y)
+  | _ => let dummy := z_lit_c t in t
+  end
+with lbound t :=
+  lazymatch t with
+  | Z.of_N ?v => constr:(0)
+  | ?a + ?b => let x := lbound a in let y := lbound b in eval vm_compute in (x + y)
+  | ?a - ?b => let x := lbound a in let y := ubound b in eval vm_compute in (x - y)
+  | ?a * ?b => let x := ubound a in let y := ubound b in let x' := lbound a in let y' := lbound b in
+               eval vm_compute in (Z.min (Z.min (x * y) (x' * y')) (Z.min (x * y') (x' * y)))
+  | ?a / ?c => let x := lbound a in let d := lbound c in
+               lazymatch eval vm_compute in (0 <? d) with true => eval vm_compute in (Z.min (x / d) 0) end
+  | ?a mod ?c => constr:(0)
+  | Z.min ?a ?b => let x := lbound a in let y := lbound b in eval vm_compute in (Z.min x y)
+  | _ => let dummy := z_lit_c t in t
+  end.
+(* number of bits of the syntactic upper bound of b *)
+Ltac bits_est b cont :=
+  let u := ubound b in
+  let k := eval vm_compute in (Z.log2_up (u + 1)) in
+  z_lit k; cont k.
+
+(* the least k in 0..64 for which lia proves 0 <= b < 2^k (binary search: provability is monotone in k) *)
+Ltac bits_of b cont :=
+  let rec go lo hi :=
+    let d := eval vm_compute in (hi - lo) in
+    lazymatch d with
+    | 1 => cont hi
+    | _ => let mid := eval vm_compute in ((lo + hi) / 2) in
+           let p := eval vm_compute in (2 ^ mid) in
+           tryif assert_succeeds (assert (0 <= b < p) by lia) then go lo mid else go mid hi
+    end in
+  let p64 := eval vm_compute in (2 ^ 64) in
+  assert_succeeds (assert (0 <= b < p64) by lia); go (-1) 64.
+
+(* Z.lor -> arithmetic: disjoint operands (a multiple of 2^k, b below 2^k; either order) become a sum,
+   an operand that is 0 or a single bit becomes a sum corrected by Z.min.  Side conditions by lia.
+   The width k is first guessed from the syntactic bound, then searched. *)
+Ltac lor_with bits a b :=
+  first
+  [ bits b ltac:(fun k => rewrite (lor_disjoint a b k) by (pows; lia))
+  | bits a ltac:(fun k => rewrite (Z.lor_comm a b), (lor_disjoint b a k) by (pows; lia))
+  | bits a ltac:(fun k1 => let k := eval vm_compute in (k1 - 1) in rewrite (lor_bit a b k) by (pows; lia))
+  | bits b ltac:(fun k1 => let k := eval vm_compute in (k1 - 1) in rewrite (Z.lor_comm a b), (lor_bit b a k) by (pows; lia)) ].
+Ltac lor_step :=
+  match goal with
+  | |- context [Z.lor ?a ?b] => first [ lor_with bits_est a b | lor_with bits_of a b ]
+  end.
+Ltac bitnorm := repeat land_step; pows; repeat lor_step; pows.
+(* C division / remainder of operands the context shows to be non-negative *)
+Ltac quots :=
+  repeat (rewrite Z.quot_div_nonneg by lia); repeat (rewrite Z.rem_mod_nonneg by lia).
+
 Lemma nz_b2z c : nz (b2z c) = c. Proof. destruct c; reflexivity. Qed.
 Ltac norm :=
   repeat rewrite nz_b2z in *; change (nz 1) with true in *; change (nz 0) with false in *;
-  unfold nz, b2z, wrapz, wrap, wrap64, W64, SIZE_MAX in *; shifts; pows.
+  unfold nz, b2z, wrapz, swrapz, wrap, wrap64, W64, SIZE_MAX in *; shifts; pows; quots; bitnorm.
 Ltac splits :=
   repeat match goal with
   | |- context [if ?c then _ else _] =>
@@ -31,5 +214,3 @@ Ltac splits :=
       end
   end.
 Ltac bridge := norm; splits; pows; try reflexivity; try lia.
-
-
